@@ -107,6 +107,7 @@ func scenCoreWrap(r *Run) {
 		s.heap = s.heap[:0]
 		s.Invariants = nil
 		s.seq = 0
+		s.resSeq = 0
 		s.epoch = time.Now()
 		w := NewCoreWorld(s, false, time.Duration(cc)*time.Millisecond)
 		w.Links.Default = o.Link
